@@ -77,7 +77,7 @@ def run(ctx):
     sigs = set()
     lines, metas = [], []
     zones = QUICK_ZONES if not thorough else sorted(zoneinfo.available_timezones())
-    per_zone = 6 if not thorough else 10 ** 6
+    per_zone = 6 if not thorough else 12      # all zones, a sample of each zone's transitions (earliest, latest, random)
     hm_json = fitted_hourly().to_json()
     n_pred = 0
     for zone in zones:
@@ -260,9 +260,9 @@ def run(ctx):
                 res["disagreements"].append(dict(zone=zone, transition=t, ops=o.split(" | ")[0][:80], lean_len=len(vals), impl_len=len(impl[1])))
     res["samples"] = [dict(zone=m_[0], transition_utc=m_[1], rows=m_[3]) for m_ in metas[:3]]
     res["distinct_nontrivial"] = len(sigs)
-    res["exhaustive"] = thorough
+    res["exhaustive"] = False
     res["rule"] = ("IANA zones (quick: 20 covering whole-hour, 30-minute, midnight and southern-hemisphere changes; thorough: all of "
-                   "zoneinfo.available_timezones()) x their UTC-offset transitions 2000-2037 (quick: first/last two and a sample) x windows with "
+                   "zoneinfo.available_timezones()) x their UTC-offset transitions 2000-2037 (first/last two and a random sample: 6 per zone quick, 12 per zone thorough) x windows with "
                    "the transition day interior, first and in a frame that starts/ends mid-day; whole predict() with and without observed on a "
                    "sample; daily/billing predict() on frames with NaN-temperature and NaN-usage days. distinct = (shift seconds, local hour of "
                    "the change, transition on first day?, trimmed end?) and daily (zone, observed?, has missing temperature?)")
